@@ -19,7 +19,8 @@ type IgnorePatterns []*regexp.Regexp
 // Match returns whether the given error should be ignored due to the "ignore" configuration.
 func (pats IgnorePatterns) Match(err *Error) bool {
 	for _, r := range pats {
-		if r.MatchString(err.Message) {
+		// An element is nil when "ignore" is tagged `!!null` explicitly since go-yaml skips UnmarshalYAML for it
+		if r != nil && r.MatchString(err.Message) {
 			return true
 		}
 	}
